@@ -25,7 +25,7 @@ def one(name):
             return name, ("CAUGHT" if rules else "MISSED"), ", ".join(sorted(rules))
     return name, "STALE", ""
 res = []
-with concurrent.futures.ThreadPoolExecutor(4) as ex:
+with concurrent.futures.ThreadPoolExecutor(10) as ex:
     for name, st, rules in ex.map(one, sorted(os.listdir(root))):
         res.append(st)
         print(st.ljust(6), name, ("by " + rules) if rules else "", flush=True)
